@@ -139,12 +139,55 @@ def run_job(j):
     return case
 
 
+WARMUP_LIMIT = 1200   # seconds for the warm-up call of a process (import + JIT compilation, possibly on a loaded machine)
+LIMIT = 180           # seconds for every later call (normal: milliseconds)
+
+
+def warm_up():
+    """start = goal on an open 2x2 grid: compiles every kernel with the signatures of the real jobs and
+    returns without entering the neighbour loop"""
+    for dtype in ("float64", "float32"):
+        run_job({"H": 2, "W": 2, "vals": [[1, 1], [1, 1]], "barriers": [0, 9], "dtype": dtype, "conn": 8,
+                 "yax": {"den": 1, "o": 0, "s": 1}, "xax": {"den": 1, "o": 0, "s": 1}, "sp": [0, 0], "gp": [0, 0],
+                 "snapS": 1, "snapG": 1})
+
+
 def main():
+    """One result line per job.  A watchdog thread (the compiled search releases the GIL) notices a call that
+    does not return: it reports that job as an error, marks the remaining jobs of this process as skipped
+    (the driver runs them again in a fresh process) and ends the process."""
+    import threading
+    import time
     jobs = json.load(sys.stdin)["jobs"]
     out = sys.stdout
-    for j in jobs:
-        out.write(json.dumps(run_job(j)) + "\n")
-    out.flush()
+    lock = threading.Lock()
+    state = {"i": -1, "t": time.time(), "done": False}
+
+    def watchdog():
+        while not state["done"]:
+            time.sleep(1.0)
+            limit = WARMUP_LIMIT if state["i"] < 0 else LIMIT
+            if not state["done"] and time.time() - state["t"] > limit:
+                with lock:
+                    i = max(state["i"], 0)
+                    j = jobs[i]
+                    out.write(json.dumps({"H": j["H"], "W": j["W"], "tag": j.get("tag", ""),
+                                          "error": "Timeout: a_star_search did not return within %d s" % limit}) + "\n")
+                    for _ in jobs[i + 1:]:
+                        out.write(json.dumps({"skipped": True}) + "\n")
+                    out.flush()
+                    os._exit(0)
+
+    threading.Thread(target=watchdog, daemon=True).start()
+    warm_up()
+    for i, j in enumerate(jobs):
+        state["i"], state["t"] = i, time.time()
+        line = json.dumps(run_job(j)) + "\n"
+        with lock:
+            out.write(line)
+    with lock:
+        state["done"] = True
+        out.flush()
 
 
 if __name__ == "__main__":
